@@ -22,14 +22,16 @@
 (***************************************************************************)
 EXTENDS Naturals, Integers, Sequences, SequencesExt, FiniteSets, TLC, Json, IOUtils
 
-CONSTANTS LoopBound,       \* iterations per loop activation
-          MaxSteps         \* safety net against non-termination of the walk
+CONSTANTS MaxSteps         \* safety net against non-termination of the walk
 
 Doc == JsonDeserialize(IOEnv.CASES)
 Case(c) == Doc.cases[c]
 
-VARIABLES c, pc, kont, steps, done, bad
-vars == <<c, pc, kont, steps, done, bad>>
+VARIABLES c, pc, kont, steps, done, bad,
+          lastdef          \* C06: variable name -> statement that defined it last on this path (history variable)
+vars == <<c, pc, kont, steps, done, bad, lastdef>>
+
+LoopBound == Case(c).loop_bound        \* iterations per loop activation (2 for C04, 1 for C06)
 
 Rows == Case(c).rows
 IsMarker(r) == r.op \in {"block_start", "block_end"}
@@ -56,7 +58,7 @@ Innermost(kinds) == IF \E j \in 1..Len(kont) : kont[j].kind \in kinds
                     ELSE 0
 
 Init == /\ c \in 1..Len(Doc.cases)
-        /\ pc = 0 /\ steps = 0 /\ done = FALSE /\ bad = ""
+        /\ pc = 0 /\ steps = 0 /\ done = FALSE /\ bad = "" /\ lastdef = << >>
         /\ LET m == RowOf(Case(c).method) IN
            kont = IF m.parameters # 0 THEN <<Frame(m.body, "plain"), Frame(m.parameters, "plain")>>
                   ELSE <<Frame(m.body, "plain")>>
@@ -67,21 +69,47 @@ EdgeOK(a, b) == a = 0 \/ <<a, b>> \in ToSet(Case(c).cfg)
 (* where the step starts, for the report: which kinds of constructs enclose the statement that has just run *)
 Has(kind) == \E j \in 1..Len(kont) : kont[j].kind = kind
 Ctx == (IF Has("switch") THEN "switch." ELSE "") \o (IF Has("try") THEN "try." ELSE "") \o (IF Has("loop") THEN "loop." ELSE "") \o "top"
+
+(* ---- definitions and uses of a row, from its attributes (the documented roles of the instruction set) ---- *)
+DeclOps == {"parameter_decl", "variable_decl"}
+Defs(r) == (IF r.target_v THEN {r.target} ELSE {})
+           \cup (IF r.op \in DeclOps \cup {"forin_stmt", "for_value_stmt"} /\ r.name_v THEN {r.name} ELSE {})
+Uses(r) == (IF r.operand_v THEN {r.operand} ELSE {}) \cup (IF r.operand2_v THEN {r.operand2} ELSE {})
+           \cup (IF r.condition_v THEN {r.condition} ELSE {}) \cup (IF r.receiver_v THEN {r.receiver} ELSE {})
+           \cup (IF r.op = "return_stmt" /\ r.name_v THEN {r.name} ELSE {})
+           \cup ToSet(r.arg_names)
+(* what lian treats as reaching the use of v at statement id: Case(c).rd[ToString(id)] = sequence of <<name, def stmt>> *)
+RDof(id, v) == LET key == ToString(id) IN
+               IF key \in DOMAIN Case(c).rd
+               THEN {Case(c).rd[key][j][2] : j \in {i \in 1..Len(Case(c).rd[key]) : Case(c).rd[key][i][1] = v}}
+               ELSE {}
+ReachBad(id) == IF Case(c).check # "rd" THEN {}
+                ELSE {v \in Uses(RowOf(id)) : v \in DOMAIN lastdef /\ lastdef[v] \notin RDof(id, v)}
+NextDef(id) == IF Case(c).check # "rd" THEN lastdef
+               ELSE [v \in (DOMAIN lastdef) \cup Defs(RowOf(id)) |-> IF v \in Defs(RowOf(id)) THEN id ELSE lastdef[v]]
+
 Exec(id, k2) ==
   /\ pc' = id /\ kont' = k2 /\ steps' = steps + 1 /\ UNCHANGED <<c, done>>
-  /\ bad' = IF ~EdgeOK(pc, id) THEN "edge_missing" ELSE ""
-  /\ (bad' # "" => PrintT("@@" \o ToJson([case |-> Case(c).name, clause |-> bad', src |-> pc, dst |-> id, ctx |-> Ctx,
-                                           srcop |-> IF pc > 0 THEN RowOf(pc).op ELSE "entry",
-                                           dstop |-> IF id > 0 THEN RowOf(id).op ELSE "exit"])))
-Silent(k2) == /\ kont' = k2 /\ UNCHANGED <<c, pc, steps, done, bad>>
+  /\ lastdef' = NextDef(id)
+  /\ bad' = IF Case(c).check = "cfg" /\ ~EdgeOK(pc, id) THEN "edge_missing"
+            ELSE IF ReachBad(id) # {} THEN "reaching_definition_missing" ELSE ""
+  /\ (bad' = "edge_missing" =>
+        PrintT("@@" \o ToJson([case |-> Case(c).name, clause |-> bad', src |-> pc, dst |-> id, ctx |-> Ctx,
+                               srcop |-> IF pc > 0 THEN RowOf(pc).op ELSE "entry",
+                               dstop |-> IF id > 0 THEN RowOf(id).op ELSE "exit"])))
+  /\ (bad' = "reaching_definition_missing" =>
+        LET v == CHOOSE x \in ReachBad(id) : TRUE IN
+        PrintT("@@" \o ToJson([case |-> Case(c).name, clause |-> bad', use |-> id, var |-> v, def |-> lastdef[v],
+                               lian |-> RDof(id, v), useop |-> RowOf(id).op])))
+Silent(k2) == /\ kont' = k2 /\ UNCHANGED <<c, pc, steps, done, bad, lastdef>>
 
 (* ------------------------------------------------------------------ *)
 PopFrame == /\ kont # << >> /\ AtEnd /\ Len(kont) > 1
             /\ Silent(SubSeq(kont, 1, Len(kont) - 1))
 
 Finish == /\ ~done /\ (IF kont = << >> THEN TRUE ELSE AtEnd /\ Len(kont) = 1)
-          /\ pc' = -1 /\ done' = TRUE /\ kont' = << >> /\ steps' = steps + 1 /\ UNCHANGED c
-          /\ bad' = IF ~EdgeOK(pc, -1) THEN "exit_edge_missing" ELSE ""
+          /\ pc' = -1 /\ done' = TRUE /\ kont' = << >> /\ steps' = steps + 1 /\ UNCHANGED <<c, lastdef>>
+          /\ bad' = IF Case(c).check = "cfg" /\ ~EdgeOK(pc, -1) THEN "exit_edge_missing" ELSE ""
           /\ (bad' # "" => PrintT("@@" \o ToJson([case |-> Case(c).name, clause |-> bad', src |-> pc, dst |-> -1, ctx |-> "top",
                                                    srcop |-> IF pc > 0 THEN RowOf(pc).op ELSE "entry", dstop |-> "exit"])))
 
